@@ -18,6 +18,8 @@ Inductive token :=
 | TWord (s : string)            (* [_]?[a-z][A-Za-z0-9_]*, not followed by '$': symbolic constant, predicate symbol, keyword *)
 | TIndLemma                     (* the role keyword inductive-lemma *)
 | TFun (c : string) (s : sort)  (* c$i c$s c$g  (long forms c$integer .. lex to the same token) *)
+| TFunBare (c : string)         (* c$ not followed by a sort: only meaningful when a keyword is split off its front
+                                   ("andN$" = and N$); never printed *)
 | TVar (x : string) (s : sort)  (* X, X$g -> general;  X$, X$i -> integer;  X$s -> symbol *)
 | TNum (n : N)                  (* 0 | [1-9][0-9]* *)
 | TNegNum (n : N)               (* '-' immediately followed by [1-9][0-9]* *)
@@ -40,6 +42,7 @@ Definition tok_str (t : token) : string :=
   | TWord s => s
   | TIndLemma => "inductive-lemma"
   | TFun c s => c ++ "$" ++ sort_letter s
+  | TFunBare c => c ++ "$"
   | TVar x SGeneral => x
   | TVar x s => x ++ "$" ++ sort_letter s
   | TNum n => nat_str n
